@@ -527,13 +527,16 @@ def run(ctx, chk):
     from report import Sub
     # text fields: same code page both ways, decoder strips nothing but the excluded trailing NULs (shared with C17-e)
     import rules_c17
-    sub_t = Sub(chk, "C01-c", lambda r: r in ("C17-e/text-pairing", "C17-e/text-codepage", "C17-e/text-trim"))
+    sub_t = Sub(chk, "C01-c", lambda r: r in ("C17-e/text-pairing", "C17-e/text-codepage", "C17-e/text-trim", "C17-c/reader-total",
+                                              "C17-c/pages-agree", "C17-c/two-byte-reader"))
     rules_c17.text(sub_t, [ctx.crate("zvt_builder"), ctx.crate("zvt")])
+    rules_c17.tags(sub_t, [ctx.crate("zvt_builder"), ctx.crate("zvt")])
     chk.floor("text codec obligations (shared with C17-e)", sub_t.count, 4)
     # repeated fields: an element is only kept if decoding it consumed input (shared with C12-e)
     import rules_c12
-    sub_v = Sub(chk, "C01-a", lambda r: r in ("C12-e/vec-item-consumed",))
+    sub_v = Sub(chk, "C01-a", lambda r: r in ("C12-e/vec-item-consumed", "C12-g/optional-untagged-total"))
     rules_c12.vec_items(ctx, sub_v)
+    rules_c12.optional_untagged(ctx, sub_v)
     sub = Sub(chk, "C01-g", lambda r: r.startswith(("C16-b/", "C16-d/", "C16-e/", "C16-f/")))
     rules_c16.run(ctx, sub)
     chk.floor("length-style agreement obligations (shared with C16)", sub.count, 20)
